@@ -323,19 +323,33 @@ func (r *Resolver) onStrBin(g *Scope, name string, t *parser.Type, v *parser.Con
 	return "", errTypeMissMatch(name, t, v)
 }
 
-// escapeDoubleQuotes escapes the double quotes of an IDL literal so that it can be
-// put between double quotes in go. A quote that is already escaped in the IDL (which
-// is only possible in a single quoted literal) is left as it is.
+// escapeDoubleQuotes turns the text of an IDL literal into the body of a double
+// quoted go string: an unescaped double quote is escaped, a line break inside
+// the literal is written as an escape, and the IDL escape \' (which is not an
+// escape of a go string) becomes the quote itself. Any other escape pair of
+// the IDL, including an escaped double quote, is left as it is.
 func escapeDoubleQuotes(lit string) string {
 	var sb strings.Builder
-	escaped := false
 	for i := 0; i < len(lit); i++ {
 		c := lit[i]
-		if c == '"' && !escaped {
-			sb.WriteByte('\\')
+		if c == '\\' && i+1 < len(lit) {
+			i++
+			if lit[i] != '\'' {
+				sb.WriteByte(c)
+			}
+			sb.WriteByte(lit[i])
+			continue
 		}
-		escaped = c == '\\' && !escaped
-		sb.WriteByte(c)
+		switch c {
+		case '"':
+			sb.WriteString(`\"`)
+		case '\n':
+			sb.WriteString(`\n`)
+		case '\r':
+			sb.WriteString(`\r`)
+		default:
+			sb.WriteByte(c)
+		}
 	}
 	return sb.String()
 }
